@@ -221,12 +221,16 @@ DoReadErr ==
   /\ c' = Run(sc, ReadFails(sc, c)) /\ hist' = Append(hist, << "re" >>)
   /\ UNCHANGED <<si, sc, used>>
 
+\* A write fault is a property of the transport, not of the caller's grouping of bytes into calls: the transport
+\* breaks once exactly fault.at bytes have been accepted.  A call that starts before that offset is accepted at most
+\* up to it (a short write the behaviour is not charged for), the call that starts at it fails.
+WriteLimit == IF sc.fault.k \in {"werr", "wzero"} /\ c.outw < sc.fault.at THEN Min2(c.wrem, sc.fault.at - c.outw) ELSE c.wrem
 DoWrite ==
   /\ c.pc \in WritePcs /\ ~FaultAt("werr", c.outw) /\ ~FaultAt("wzero", c.outw)
-  /\ \E k \in Amounts(c.wrem) :
+  /\ \E k \in Amounts(WriteLimit) :
        /\ c' = Run(sc, AfterWrite(sc, c, k))
        /\ hist' = Append(hist, << "w", k >>)
-       /\ used' = Cut(k, c.wrem)
+       /\ used' = Cut(k, WriteLimit)
   /\ UNCHANGED <<si, sc>>
 
 DoWriteErr ==
